@@ -233,6 +233,8 @@ static int add_char(ts_parser_state_t *tpsp, char c)
 	size_t new_allocation = 2 * tpsp->tps_text_allocation;
 
 	if ((cp = realloc(tpsp->tps_text, new_allocation)) == NULL) {
+	    _vnadata_error(tpsp->tps_vdip, VNAERR_SYSTEM,
+		    "realloc: %s", strerror(errno));
 	    return -1;
 	}
 	tpsp->tps_text = cp;
@@ -501,7 +503,7 @@ static int next_token(ts_parser_state_t *tpsp, uint32_t flags)
 		if (add_char(tpsp, (char)tpsp->tps_char) == -1) {
 		    end_text(tpsp);
 		    tpsp->tps_token = T_ERROR;
-		    return 0;
+		    return -1;
 		}
 		next_char(tpsp);
 	    } while (is_in_word_char(tpsp->tps_char));
